@@ -203,12 +203,10 @@ func c07(c *Ctx) {
 	solSrc := c.ReadFile("ethereum/contracts/Messages.sol")
 	if f, err := cparse.ParseSolidityFunc(solSrc, "quorum"); err != nil {
 		R.Fail("C07.fold", "C07.fold/solidity/extract", "ethereum/contracts/Messages.sol", "extract quorum()", "undecided: "+err.Error())
-	} else if len(f.Body) != 1 || len(f.Params) != 1 {
-		R.Fail("C07.fold", "C07.fold/solidity/extract", "ethereum/contracts/Messages.sol", "extract quorum()", "undecided: quorum() is not a single return statement")
-	} else if rt, ok := f.Body[0].(cparse.Return); !ok || len(rt.Xs) != 1 {
-		R.Fail("C07.fold", "C07.fold/solidity/extract", "ethereum/contracts/Messages.sol", "extract quorum()", "undecided: quorum() is not a single return statement")
+	} else if e, ok := straightLineResult(f.Body); !ok || len(f.Params) != 1 {
+		R.Fail("C07.fold", "C07.fold/solidity/extract", "ethereum/contracts/Messages.sol", "extract quorum()", "undecided: quorum() is not a straight-line computation of one result")
 	} else {
-		e, sym := rt.Xs[0], f.Params[0]
+		sym := f.Params[0]
 		progs = append(progs, prog{"solidity:Messages.quorum", func(n int64) (int64, error) {
 			v, err := foldExpr(e, sym, n)
 			if err != nil {
@@ -227,9 +225,15 @@ func c07(c *Ctx) {
 		R.Fail("C07.fold", "C07.fold/ralph/extract", "alephium/contracts/governance.ral", "extract quorumSize", fmt.Sprintf("undecided: cannot parse parseAndVerifyVAA: %v", err))
 	} else {
 		var qe cparse.Expr
+		renv := map[string]cparse.Expr{}
 		for _, s := range ralphFn.Body {
-			if l, ok := s.(cparse.Let); ok && len(l.Names) == 1 && l.Names[0] == "quorumSize" {
-				qe = l.X
+			if l, ok := s.(cparse.Let); ok && len(l.Names) == 1 {
+				if l.Names[0] == "quorumSize" {
+					qe = substExpr(l.X, renv)
+				} else if l.Names[0] != "guardianSize" {
+					// (locals other than the set size itself are folded into the expression)
+					renv[l.Names[0]] = substExpr(l.X, renv)
+				}
 			}
 		}
 		if qe == nil {
@@ -370,10 +374,22 @@ func c07(c *Ctx) {
 		R.Fail("C07.use", "C07.use/solidity/verifyVM", "ethereum/contracts/Messages.sol", "verifyVM", "undecided: "+err.Error())
 	} else {
 		qOK, emptyOK := false, false
+		senv := map[string]cparse.Expr{}
 		for _, s := range f.Body {
+			// locals that merely name a sub-expression (`uint n = guardianSet.keys.length;`)
+			if l, ok := s.(cparse.Let); ok && len(l.Names) == 1 {
+				switch x := l.X.(type) {
+				case cparse.Member:
+					senv[l.Names[0]] = substExpr(l.X, senv)
+				case cparse.Call:
+					if x.Fn.String() == "quorum" {
+						senv[l.Names[0]] = substExpr(l.X, senv)
+					}
+				}
+			}
 			if iff, ok := s.(cparse.If); ok && len(iff.Then) == 1 {
 				if rt, ok := iff.Then[0].(cparse.Return); ok && len(rt.Xs) == 1 && strings.HasPrefix(rt.Xs[0].String(), "<tuple(false") {
-					switch iff.Cond.String() {
+					switch substExpr(iff.Cond, senv).String() {
 					case "(vm.signatures.length < quorum(guardianSet.keys.length))":
 						qOK = true
 					case "(guardianSet.keys.length == 0)":
@@ -391,7 +407,7 @@ func c07(c *Ctx) {
 			if es, ok := s.(cparse.ExprStmt); ok {
 				if cl, ok := es.X.(cparse.Call); ok && cl.Fn.String() == "assert!" && len(cl.Args) > 0 {
 					switch cl.Args[0].String() {
-					case "(quorumSize <= signatureSize)":
+					case "(quorumSize <= signatureSize)", "(signatureSize >= quorumSize)":
 						a1 = true
 					case "(guardianSize != 0)":
 						a2 = true
@@ -406,4 +422,62 @@ func c07(c *Ctx) {
 		R.Check("C07.use", "C07.use/ralph/nonempty-assert", "alephium/contracts/governance.ral", "Ralph asserts guardianSize != 0", a2, "assertion not found")
 		R.Check("C07.use", "C07.use/ralph/guardianSize", "alephium/contracts/governance.ral", "guardianSize is the stored set's one-byte key count", gs, "definition not of the expected form")
 	}
+}
+
+// substExpr replaces identifiers bound in env by their defining expressions.
+func substExpr(e cparse.Expr, env map[string]cparse.Expr) cparse.Expr {
+	switch x := e.(type) {
+	case cparse.Ident:
+		if v, ok := env[x.Name]; ok {
+			return v
+		}
+	case cparse.Bin:
+		return cparse.Bin{Op: x.Op, X: substExpr(x.X, env), Y: substExpr(x.Y, env)}
+	case cparse.Un:
+		return cparse.Un{Op: x.Op, X: substExpr(x.X, env)}
+	case cparse.Call:
+		var as []cparse.Expr
+		for _, a := range x.Args {
+			as = append(as, substExpr(a, env))
+		}
+		return cparse.Call{Fn: x.Fn, Args: as}
+	case cparse.Member:
+		return cparse.Member{X: substExpr(x.X, env), Name: x.Name}
+	case cparse.Index:
+		return cparse.Index{X: substExpr(x.X, env), I: substExpr(x.I, env)}
+	}
+	return e
+}
+
+// straightLineResult evaluates a function body made only of local definitions, plain assignments
+// and at most one final return: the returned expression, or — for a named result — the value
+// last assigned, with every local substituted.
+func straightLineResult(body []cparse.Stmt) (cparse.Expr, bool) {
+	env := map[string]cparse.Expr{}
+	var last cparse.Expr
+	for k, st := range body {
+		switch x := st.(type) {
+		case cparse.Let:
+			if len(x.Names) != 1 {
+				return nil, false
+			}
+			env[x.Names[0]] = substExpr(x.X, env)
+		case cparse.Assign:
+			id, ok := x.Target.(cparse.Ident)
+			if !ok || x.Op != "=" {
+				return nil, false
+			}
+			v := substExpr(x.X, env)
+			env[id.Name] = v
+			last = v
+		case cparse.Return:
+			if len(x.Xs) != 1 || k != len(body)-1 {
+				return nil, false
+			}
+			return substExpr(x.Xs[0], env), true
+		default:
+			return nil, false
+		}
+	}
+	return last, last != nil
 }
